@@ -80,9 +80,24 @@ def generate(rng, n, tier, stats):
         elif fam == 'sort_axis': op = ['sort_axis', r]
         elif fam == 'reindex':
             import props.c07 as c07
-            news = c07.new_labels(rng, labs, kind, stats)
+            if rng.random() < 0.12 and kind != 'O':
+                # the reindexed dimension is EMPTY in the dataset (every new label is missing)
+                pool2 = dict(pool); pool2[d] = (kind, [])
+                ds, pool = gen_dataset(rng, stats, axes_pool=pool2)
+                if not any(d in a['dims'] for _, a in ds['vars']): continue
+                used = []
+                for _, a in ds['vars']:
+                    for dd in a['dims']:
+                        if dd not in used: used.append(dd)
+                i = used.index(d); r = d if rng.random() < 0.6 else i; labs = []; inputs = [ds]
+                news = [1, 2] if kind == 'i' else [0.5, 2.0]
+                stats['reindex_from_empty_axis']['yes'] += 1
+            else:
+                news = c07.new_labels(rng, labs, kind, stats)
             if len(set(map(str, news))) != len(news): continue
-            op = ['reindex', news, guess_kind(news) if kind != 'O' else 'O', r, rng.choice([None, None, 0]), rng.random() < 0.15]
+            method = rng.choice([None, None, 'left', 'right'])
+            stats['reindex_method'][str(method)] += 1
+            op = ['reindex', news, guess_kind(news) if kind != 'O' else 'O', r, rng.choice([None, None, 0]), rng.random() < 0.15, method]
         elif fam == 'interp':
             if kind == 'O': continue
             lo, hi = min(labs), max(labs)
@@ -146,6 +161,7 @@ def run_op(dss, op):
     if n == 'sort_axis': return ds.sort_axis(op[1])
     if n == 'reindex':
         kw = {} if op[4] is None else {'fill_value': op[4]}
+        if len(op) > 6 and op[6]: kw['method'] = op[6]
         return ds.reindex_axis(ops.labs_np(op[1], op[2]), axis=op[3], raise_error=op[5], **kw)
     if n == 'interp':
         kw = {}
@@ -181,6 +197,7 @@ def per_variable(v, dss, op, key):
         d = dname(op[3])
         if d not in v.dims: return None
         kw = {} if op[4] is None else {'fill_value': op[4]}
+        if len(op) > 6 and op[6]: kw['method'] = op[6]
         return v.reindex_axis(ops.labs_np(op[1], op[2]), axis=d, raise_error=op[5], **kw)
     if n == 'interp':
         d = dname(op[3])
@@ -243,6 +260,7 @@ def coq_case(c, res):
         w = ('(WTakeAxisLabel %s %s)' % (ops.cq_labs(op[1]), cq_axref(op[2]))) if op[3] == 'label' else '(WTakeAxisPos %s %s)' % (cq_list([cq_z(z) for z in op[1]]), cq_axref(op[2]))
     elif n == 'sort_axis': w = '(WSortAxis %s)' % cq_axref(op[1])
     elif n == 'reindex':
+        if len(op) > 6 and op[6]: return None       # method left / right: the per-variable DimArray operation is the reference (oracle)
         cc, fk = ops.cq_fill(float('nan') if op[4] is None else op[4])
         w = '(WReindex %s %s %s %s %s %s)' % (cq_kind(op[2] if op[2] != 'O' else 'U'), ops.cq_labs(op[1]), cq_axref(op[3]), cc, fk, 'true' if op[5] else 'false')
     elif n == 'interp':
